@@ -336,7 +336,7 @@ func (r *Runner) get(obj int) {
 				fmt.Sprintf("Get of object %d: NOT_FOUND, touched at %d blocks, now %d", obj, r.touched[obj], r.st.Alloc.News.Load()))
 		}
 		delete(r.touched, obj)
-	case "err internal":
+	case "err integrity":
 		if !r.corrupted {
 			r.oracle("C01", "a read reported a data integrity error on a medium that was not corrupted", fmt.Sprintf("Get of object %d", obj))
 		}
@@ -483,7 +483,7 @@ func (r *Runner) findMissing(objs []int) {
 				r.noteTouch(o)
 			}
 		}
-	} else if Code(err) == "err internal" && !r.corrupted {
+	} else if Code(err) == "err integrity" && !r.corrupted {
 		r.oracle("C01", "an existence check reported a data integrity error on a medium that was not corrupted", fmt.Sprintf("FindMissing %v", objs))
 	}
 	r.state()
@@ -547,7 +547,7 @@ func (r *Runner) checkComp(parent, child int, e event) {
 		if !r.visibleAllowed(parent) {
 			r.oracle("C01", "an object is visible although no successful upload under an admissible instance name exists", fmt.Sprintf("composite read of parent %d", parent))
 		}
-	case "err internal":
+	case "err integrity":
 		if !r.corrupted {
 			r.oracle("C01", "a read reported a data integrity error on a medium that was not corrupted", fmt.Sprintf("GetFromComposite parent %d child %d", parent, child))
 		}
